@@ -224,6 +224,7 @@ type supervisor struct {
 }
 
 func supervise(c *mon.Ctx) {
+	c.Level = "fault_enumeration"
 	c.Rule = "one case = (class, set-up, step boundary, fault, protocol version, auth, k requests in flight, pages, blocked receivers, perturbation) run on a fresh connection pair in a child process; " +
 		"distinct = different tuple whose fault point was actually reached (requests pending at the fault are measured); concurrent cases add the log-hook event-order signature"
 	c.Assume("runtime.Stack(all) lists every goroutine; a goroutine with a frame of package client (or created by one) belongs to the only connection pair of the running case")
